@@ -171,6 +171,16 @@ M = {
   ('spilled helper loses result on failure', 'sourcer/expressions/base.py', "                method = out.YIELD if is_generator else out.RETURN\n                method((STATUS, RESULT, POS))", "                method = out.YIELD if is_generator else out.RETURN\n                method((STATUS, RESULT, POS) if is_generator else Code('(', STATUS, ', ', RESULT, ' if ', STATUS, ' else None, ', POS, ')'))"),
   ('run recursion for nested calls', 'sourcer/translator.py', "            gtor = result[1](${ctx}text, result[2])\n            stack.append((result, gtor))\n            result = None", "            if len(stack) % 2500 == 2499:\n                raise RecursionError('maximum parse depth exceeded')\n            gtor = result[1](${ctx}text, result[2])\n            stack.append((result, gtor))\n            result = None"),
  ],
+ 'C18': [
+  ('linecol cache by len', 'sourcer/translator.py', "def _map_index_to_line_and_column(text):\n    line_numbers = []", "_LC = {}\ndef _map_index_to_line_and_column(text):\n    if len(text) in _LC: return _LC[len(text)]\n    _LC[len(text)] = r = _map2(text)\n    return r\ndef _map2(text):\n    line_numbers = []"),
+  ('module-level memo', 'sourcer/translator.py', "def _run(${ctx}text, pos, start, fullparse):\n    memo = {}", "_MEMO = {}\ndef _run(${ctx}text, pos, start, fullparse):\n    memo = _MEMO.setdefault(id(text), {})"),
+  ('memo keyed by text hash kept across calls', 'sourcer/translator.py', "def _run(${ctx}text, pos, start, fullparse):\n    memo = {}", "_MEMO = {}\ndef _run(${ctx}text, pos, start, fullparse):\n    memo = _MEMO.setdefault(len(text), {}) if fullparse else {}"),
+  ('revert F17', 'sourcer/translator.py', "        if pos_info and not isinstance(pos_info, _PositionInfo):", "        if pos_info:"),
+  ('shared result register across nested runs', 'sourcer/translator.py', "def _run(${ctx}text, pos, start, fullparse):\n    memo = {}\n    result = None\n", "_LAST = [None]\ndef _run(${ctx}text, pos, start, fullparse):\n    memo = {}\n    result = None\n    _LAST[0] = text\n"),
+  ('error message cached per rule', 'sourcer/translator.py', "        pos = result[2]\n        message = result[1](text, pos)\n        raise ParseError(message, pos)", "        pos = result[2]\n        _c = _run.__dict__.setdefault('msgs', {})\n        if (result[1], pos) not in _c:\n            try:\n                result[1](text, pos)\n            except ParseError as e:\n                _c[(result[1], pos)] = e\n        raise _c[(result[1], pos)]"),
+  ('partial excerpt from previous text', 'sourcer/translator.py', "        excerpt = _extract_excerpt(text, pos, col)\n        raise PartialParseError(nodes, position, excerpt)", "        _e = _finalize_parse_info.__dict__\n        excerpt = _e.get('last') if _e.get('key') == (len(text), pos) else _extract_excerpt(text, pos, col)\n        _e['last'], _e['key'] = excerpt, (len(text), pos)\n        raise PartialParseError(nodes, position, excerpt)"),
+  ('install module replaces parent attr of old module', 'sourcer/grammar.py', "    sys.modules[name] = module\n", "    old = sys.modules.get(name)\n    if old is not None and hasattr(old, '_run'):\n        old.__dict__.update({k: v for k, v in module.__dict__.items() if k.startswith('_try_')})\n    sys.modules[name] = module\n"),
+ ],
  'C03': [
   ('sep drop pop', 'sourcer/expressions/sep.py', "                    with out.IF(staging):\n                        out += staging.pop()\n", "                    pass\n"),
   ('sep require_separator empty', 'sourcer/expressions/sep.py', "Code(f'not {staging} or {saw_separator}')", "Code(f'{saw_separator}')"),
